@@ -1102,8 +1102,352 @@ def case_lifecycle(ctx, c):
             return
 
 
+# ---------------------------------------------------------------- long-lived selection protocols / repeated factory calls
+def gen_effects(g, m, t):
+    uk = str(g.choice(["gauss", "gauss", "integers", "negative", "decades", "zeros"]))
+    if uk == "gauss":
+        u = g.normal(size=(m, t))
+    elif uk == "integers":
+        u = g.integers(-3, 4, (m, t)).astype(float)
+    elif uk == "negative":
+        u = -numpy.abs(g.normal(size=(m, t))) - 0.05
+    elif uk == "decades":
+        u = g.choice([-1.0, 1.0], (m, t)) * 10.0 ** g.uniform(-4, 4, (m, t))
+    else:
+        u = g.normal(size=(m, t)) * (g.random((m, t)) < 0.4)
+    return numpy.ascontiguousarray(u, dtype=float)
+
+
+def ref_partition(ctx, S, L, nblk, coords):
+    """The library's partition of layout L into nblk blocks, obtained from direct calls of the three helpers and judged
+    by the partition monitors.  Returns the blocks [(st, sp)] or None (root cause then reported at the helper)."""
+    H = S["H"]
+    genpos, stix, spix = L["genpos"], L["stix"], L["spix"]
+    w = {"genpos": genpos, "chrgrp_stix": stix, "chrgrp_spix": spix, "nhaploblk": nblk}
+    icls_app = O.apportion_class(genpos, stix, spix)
+    ok, per = guarded(ctx, "nhaploblk_chrom", icls_app, coords, lambda: H.nhaploblk_chrom(nblk, genpos.copy(), stix.copy(), spix.copy()), w)
+    if not ok or not O.check_apportion(ctx, nblk, per, stix, spix, icls_app, coords, w):
+        return None
+    per = numpy.asarray(per)
+    icls_bin = O.bin_occupancy_class(per, genpos, stix, spix)
+    w2 = dict(w, per_chromosome=per)
+    ok, lab = guarded(ctx, "haplobin", icls_bin, coords, lambda: H.haplobin(per.copy(), genpos.copy(), stix.copy(), spix.copy()), w2)
+    if not ok:
+        return None
+    runs = O.check_labels(ctx, nblk, lab, stix, spix, icls_bin, coords, w2)
+    ok, bnd = guarded(ctx, "haplobin_bounds", icls_bin, coords, lambda: H.haplobin_bounds(numpy.array(lab)), w2)
+    if not ok:
+        return None
+    rb = O.check_bounds(ctx, lab, bnd, icls_bin, coords, w2)
+    if runs is None or rb is None or runs != rb:
+        return None
+    return runs
+
+
+def case_protocols(ctx, c):
+    """One selection protocol object (or, 25%, one problem factory) is asked for its problem 3-6 times.  Between the calls
+    exactly one input changes: the model is replaced / its u_a reassigned / written in place, nhaploblk changes, the
+    genotype matrix is replaced (new object, a deep copy, a taxa selection) or written in place, nparent / unique_parents /
+    nbestfndr change, the protocol is copied, or nothing changes.  Every returned problem is judged against the oracle on
+    the inputs of THAT call; an earlier problem is re-scored afterwards on the inputs of ITS call."""
+    import copy
+    import itertools
+    S = setup()
+    g = ctx.rng("protocols", c)
+    coords = [c, "protocols"]
+    L = gen_layout(g)
+    m, nchr = L["m"], L["nchr"]
+    while True:
+        nph, n, G, u, uk = gen_values(g, m)
+        if n >= 2:
+            break
+    t = u.shape[1]
+    ploidy = nph
+    kind = str(g.choice(["OPV", "OPV", "OPV", "GB", "GB", "OHV-Subset", "OHV-Subset", "OHV-Real", "OHV-Integer", "OHV-Binary"]))
+    hap = kind in ("OPV", "GB")
+    sub = kind.split("-")[1] if not hap else "Subset"
+    via_protocol = bool(g.random() < 0.75)
+    ctx.case("protocols:%s/%s" % (kind, "protocol" if via_protocol else "factory"), L["genpos"], L["lens"], L["nblk"], G, u, trivial=m < 2)
+    if c % 101 == 0:
+        ctx.sample(dict(summary(L, nph, n, u, uk), fn="repeated problem() calls on one %s %s" % (kind, "protocol" if via_protocol else "factory")))
+    taxa_names = numpy.array(["t%02d" % i for i in range(8)], dtype=object)
+    phypos = numpy.arange(1, m + 1, dtype="int64") * 10
+
+    def make_pg(Gv):
+        pg = S["PG"](numpy.ascontiguousarray(Gv, dtype="int8").copy(), taxa=taxa_names[:Gv.shape[1]].copy(), vrnt_chrgrp=L["chrgrp"].copy(),
+                     vrnt_phypos=phypos.copy(), vrnt_genpos=L["genpos"].copy(), ploidy=nph)
+        pg.group_vrnt()
+        return pg
+
+    def new_G(nn):
+        return g.integers(0, 2, (nph, nn, m)).astype("int8") if g.random() < 0.8 else (g.random((nph, nn, m)) < 0.2).astype("int8")
+
+    def pick_nparent(nn):
+        return int(g.integers(1, nn + 1)) if hap else int(g.integers(1, min(3 if nn <= 5 else 2, nn) + 1))
+
+    if hap:
+        pcls = S["POPV"].OptimalPopulationValueSubsetSelection if kind == "OPV" else S["PGB"].GenotypeBuilderSubsetSelection
+        cls = S["MOPV"].OptimalPopulationValueSubsetSelectionProblem if kind == "OPV" else S["MGB"].GenotypeBuilderSubsetSelectionProblem
+        hookname = defsite(cls, "_calc_haplomat")
+    else:
+        pcls = getattr(S["POHV"], "OptimalHaploidValue%sSelection" % sub)
+        cls = getattr(S["MOHV"], "OptimalHaploidValue%sSelectionProblem" % sub)
+        hookname = defsite(S["MOHV"].OptimalHaploidValueSelectionProblemMixin, "_calc_haplomat")
+    msite = "%s.problem" % pcls.__name__ if via_protocol else defsite(cls, "from_pgmat_gpmod")
+    # ---- current inputs (the harness's own record of what the next call is given)
+    cur = {"G": G, "u": u, "nblk": L["nblk"], "nparent": pick_nparent(n), "unique": bool(g.random() < 0.6), "nbest": 1}
+    if kind == "GB":
+        cur["nbest"] = 1 if g.random() < 0.4 else int(g.integers(1, cur["nparent"] + 1))
+    try:
+        pg = make_pg(G)
+        mod, _, _ = gen_model(g, S, u)
+        prot = None
+        if via_protocol:
+            pa = dict(ntrait=t, nhaploblk=cur["nblk"], ncross=1, nparent=cur["nparent"], nmating=1, nprogeny=1, nobj=t)
+            if kind == "GB":
+                pa["nbestfndr"] = cur["nbest"]
+            if not hap:
+                pa["unique_parents"] = cur["unique"]
+            prot = pcls(**pa)
+    except Exception as e:
+        ctx.raised("protocols: harness construction", e)
+        return
+    if not (numpy.array_equal(pg.mat, G) and numpy.array_equal(pg.vrnt_genpos, L["genpos"])):
+        ctx.sumnote("harness: grouped layout differs from the canonical one (case skipped)")
+        return
+    partitions = {}
+    earlier = []        # records of problems returned so far: {"p", "score", "live"}
+    nsteps = int(g.integers(3, 7))
+    op = "first call"
+    copied = ""
+    for step in range(nsteps):
+        if step > 0:
+            ops = ["model replaced", "model replaced", "model u_a written in place", "model u_a reassigned", "nhaploblk changed", "nhaploblk changed",
+                   "genotype matrix replaced", "genotype matrix replaced by its deep copy then written", "genotype matrix replaced by a taxa selection",
+                   "genotype matrix written in place", "nparent changed", "same inputs again"]
+            if not hap:
+                ops.append("unique_parents changed")
+            if kind == "GB":
+                ops.append("nbestfndr changed")
+            if via_protocol:
+                ops.append("protocol copied")
+            op = str(g.choice(ops))
+            if op == "protocol copied":
+                deep = bool(g.random() < 0.6)
+                try:
+                    prot = copy.deepcopy(prot) if deep else copy.copy(prot)
+                except Exception as e:
+                    ctx.raised("protocols: copy of the protocol object", e)
+                    return
+                copied = "/on a copy of the protocol"
+                op = str(g.choice(["model replaced", "model u_a written in place", "nhaploblk changed", "genotype matrix replaced", "same inputs again"]))
+            nn = cur["G"].shape[1]
+            # harness arithmetic first, library setters inside the try
+            if op in ("model replaced", "model u_a written in place", "model u_a reassigned"):
+                unew = gen_effects(g, m, t)
+            elif op == "nhaploblk changed":
+                cand = [b for b in range(nchr, m + 1) if b != cur["nblk"]]
+                if not cand:
+                    op = "same inputs again"
+                else:
+                    r = g.random()
+                    nb_new = cand[0] if r < 0.25 else (cand[-1] if r < 0.5 else int(g.choice(cand)))
+            elif op == "genotype matrix replaced by a taxa selection":
+                if nn <= 2:
+                    op = "genotype matrix replaced"
+                else:
+                    tsel = numpy.sort(g.choice(nn, int(g.integers(2, nn)), replace=False)) if g.random() < 0.5 else g.permutation(nn)[:int(g.integers(2, nn + 1))]
+            elif op == "nparent changed":
+                cand = [v for v in range(1, (nn if hap else min(3 if nn <= 5 else 2, nn)) + 1) if v != cur["nparent"]]
+                if not cand:
+                    op = "same inputs again"
+                else:
+                    np_new = int(g.choice(cand))
+            elif op == "nbestfndr changed":
+                cand = [v for v in range(1, cur["nparent"] + 1) if v != cur["nbest"]]
+                if not cand:
+                    op = "same inputs again"
+                else:
+                    nbest_new = int(g.choice(cand))
+            if op in ("genotype matrix replaced", "genotype matrix replaced by its deep copy then written", "genotype matrix written in place"):
+                Gnew = new_G(nn)
+            try:
+                if op == "model replaced":
+                    mod, _, _ = gen_model(g, S, unew); cur["u"] = unew
+                elif op == "model u_a written in place":
+                    mod.u_a[...] = unew; cur["u"] = unew
+                    for r_ in earlier:
+                        r_["live"] &= r_["mod"] is not mod
+                elif op == "model u_a reassigned":
+                    mod.u_a = unew.copy(); cur["u"] = unew
+                    for r_ in earlier:
+                        r_["live"] &= r_["mod"] is not mod
+                elif op == "nhaploblk changed":
+                    cur["nblk"] = nb_new
+                    if prot is not None:
+                        prot.nhaploblk = nb_new
+                elif op == "genotype matrix replaced":
+                    pg = make_pg(Gnew); cur["G"] = Gnew
+                elif op == "genotype matrix replaced by its deep copy then written":
+                    pg = copy.deepcopy(pg); pg.mat[...] = Gnew; cur["G"] = Gnew
+                elif op == "genotype matrix replaced by a taxa selection":
+                    pg = pg.select_taxa(tsel); cur["G"] = numpy.ascontiguousarray(cur["G"][:, tsel, :])
+                elif op == "genotype matrix written in place":
+                    pg.mat[...] = Gnew; cur["G"] = Gnew
+                    for r_ in earlier:
+                        r_["live"] &= r_["pg"] is not pg
+                elif op == "nparent changed":
+                    if kind == "GB" and prot is not None:
+                        prot.nbestfndr = 1
+                    cur["nparent"] = np_new
+                    if prot is not None:
+                        prot.nparent = np_new
+                    if kind == "GB":
+                        cur["nbest"] = min(cur["nbest"], np_new)
+                        if prot is not None:
+                            prot.nbestfndr = cur["nbest"]
+                elif op == "unique_parents changed":
+                    cur["unique"] = not cur["unique"]
+                    if prot is not None:
+                        prot.unique_parents = cur["unique"]
+                elif op == "nbestfndr changed":
+                    cur["nbest"] = nbest_new
+                    if prot is not None:
+                        prot.nbestfndr = nbest_new
+            except Exception as e:
+                ctx.raised("protocols: harness operation '%s'" % op, e)
+                return
+            # a taxa selection may leave fewer taxa than parents asked for: shrink through the setters (part of the same step)
+            nn = cur["G"].shape[1]
+            lim = nn if hap else min(3 if nn <= 5 else 2, nn)
+            if cur["nparent"] > lim:
+                try:
+                    cur["nparent"] = lim; cur["nbest"] = min(cur["nbest"], lim)
+                    if prot is not None:
+                        if kind == "GB":
+                            prot.nbestfndr = 1
+                        prot.nparent = lim
+                        if kind == "GB":
+                            prot.nbestfndr = cur["nbest"]
+                except Exception as e:
+                    ctx.raised("protocols: harness operation 'nparent shrunk'", e)
+                    return
+        icls = ("first call" if step == 0 else "later call on the same %s/%s" % ("protocol object" if via_protocol else "factory and matrix object", op)) + copied
+        ctx.sumnote("protocols step: " + op)
+        Gc, uc, nblk, nparent, unique, nbest = cur["G"], cur["u"], cur["nblk"], cur["nparent"], cur["unique"], cur["nbest"]
+        nn = Gc.shape[1]
+        # the oracle reads the objects' public state, not the harness's record: both must agree (else the harness is wrong)
+        if not (numpy.array_equal(pg.mat, Gc) and numpy.array_equal(numpy.asarray(mod.u_a), uc) and pg.ntaxa == nn):
+            ctx.sumnote("harness: protocol inputs differ from the harness record (case stopped)")
+            return
+        if nblk not in partitions:
+            partitions[nblk] = ref_partition(ctx, S, L, nblk, coords)
+        refblocks = partitions[nblk]
+        if refblocks is None:
+            return
+        w = {"kind": kind, "via": msite, "step": step, "changed_since_previous_call": op + copied, "genpos": L["genpos"], "chrgrp_stix": L["stix"],
+             "chrgrp_spix": L["spix"], "nhaploblk": nblk, "genomemat": Gc, "u_a": uc, "nparent": nparent, "unique_parents": unique, "nbestfndr": nbest}
+        if via_protocol:
+            make = (lambda: prot.problem(pg, None, None, None, mod, 0, 1))
+        elif kind == "OPV":
+            make = (lambda: cls.from_pgmat_gpmod(nhaploblk=nblk, pgmat=pg, gpmod=mod, **subset_args(nparent, nn, t)))
+        elif kind == "GB":
+            make = (lambda: cls.from_pgmat_gpmod(pgmat=pg, gpmod=mod, nhaploblk=nblk, nbestfndr=nbest, **subset_args(nparent, nn, t)))
+        else:
+            ncfg0 = len(list((itertools.combinations if unique else itertools.combinations_with_replacement)(range(nn), nparent)))
+            fargs = subset_args(min(ncfg0, 2), ncfg0, t) if sub == "Subset" else vector_args(sub, ncfg0, t)
+            make = (lambda: cls.from_pgmat_gpmod(nparent=nparent, nhaploblk=nblk, unique_parents=unique, pgmat=pg, gpmod=mod, **fargs))
+        p, status, blocks, _ = run_consumer(ctx, msite, hookname, dict(L, nblk=nblk), O.apportion_class(L["genpos"], L["stix"], L["spix"]), coords, w, make)
+        if p is None or status in ("bad-apportion", "bad-partition"):
+            return
+        if via_protocol:
+            ctx.hook("problem built by a selection protocol")
+        if status != "ok":
+            ctx.sumnote("protocols: partition helpers not called during this call (reference partition used)")
+            blocks = refblocks
+        if type(p) is not cls:
+            ctx.check("C18.repeat.state", False, msite, "builds the matching problem class", icls, witness=dict(w, got=type(p).__name__), coords=coords)
+            return
+        V = O.block_values(Gc, uc, blocks)
+        sc = O.value_scale(uc, ploidy); eps = O.tol(sc)
+        # ---- the state of the returned problem
+        if hap:
+            Hm = numpy.asarray(p.haplomat, dtype=float)
+            T = O.copy_totals(Gc, uc)
+            good = Hm.shape == (nph, nn, nblk, t) and bool(numpy.all(numpy.isfinite(Hm)))
+            cons = good and float(numpy.abs(Hm.sum(2) - T).max()) <= O.tol(O.value_scale(uc))
+            ok = ctx.check("C18.repeat.state", cons, msite, "haplomat finite, (phases, taxa, blocks, traits) of THIS call, block sums == copy totals under the "
+                           "genotypes and model passed to this call", icls,
+                           what="%s: the problem returned by a %s does not hold the block values of the genotypes/model/nhaploblk it was given"
+                                % (msite, icls), witness=dict(w, haplomat=p.haplomat, copy_totals=T), coords=coords)
+            if ok:
+                same, _ = O.match_slots(Hm, V, O.tol(O.value_scale(uc)))
+                ok = ctx.check("C18.repeat.state", same, msite, "haplomat slots == block values of this call's inputs (any one-to-one order)", icls,
+                               witness=dict(w, haplomat=p.haplomat, blocks=blocks, expected=V), coords=coords)
+            if int(p.ndecn) != nparent or (kind == "GB" and int(p.nbestfndr) != nbest):
+                ok = ctx.check("C18.repeat.state", False, msite, "ndecn / nbestfndr are those current on the protocol", icls,
+                               witness=dict(w, ndecn=p.ndecn, nbestfndr=getattr(p, "nbestfndr", None)), coords=coords) and ok
+            nspace, k = nn, nparent
+            exp_of = (lambda x, V=V, nbest=nbest: -O.best_sum(V, x, ploidy)) if kind == "OPV" else (lambda x, V=V, nbest=nbest: -O.gb_value(V, x, nbest, ploidy))
+        else:
+            om = numpy.asarray(p.ohvmat, dtype=float); xm = numpy.asarray(p.decn_space_xmap)
+            want = list((itertools.combinations if unique else itertools.combinations_with_replacement)(range(nn), nparent))
+            ok = ctx.check("C18.repeat.state", xm.ndim == 2 and sorted(map(tuple, xm.tolist())) == sorted(want), msite,
+                           "decn_space_xmap lists exactly the parent tuples of this call (taxa count, nparent, unique_parents)", icls,
+                           witness=dict(w, decn_space_xmap=xm), coords=coords)
+            if ok:
+                expm = numpy.array([O.best_sum(V, xm[r], ploidy) for r in range(xm.shape[0])])
+                ok = ctx.check("C18.repeat.state", close(ctx, "repeat ohv error", om, expm, eps), msite,
+                               "ohvmat == ploidy * sum_blocks max over (parents, phases) under the genotypes and model passed to this call", icls,
+                               what="%s: the problem returned by a %s does not hold the OHV of the genotypes/model/nhaploblk it was given" % (msite, icls),
+                               witness=dict(w, ohvmat=om, decn_space_xmap=xm, expected=expm), coords=coords)
+            if ok:
+                nspace = xm.shape[0]; k = int(g.integers(1, min(nspace, 4) + 1))
+                if sub == "Subset":
+                    exp_of = (lambda x, expm=expm: -expm[numpy.asarray(x, dtype=int)].mean(0))
+                else:
+                    exp_of = (lambda x, expm=expm: -(numpy.asarray(x, dtype=float) / float(numpy.sum(x))) @ expm)
+        if not ok:
+            return          # later calls of this object would repeat the same root cause under other input classes
+
+        def draw_x(nspace=nspace, k=k):
+            if sub == "Subset":
+                return g.choice(nspace, k, replace=False).astype(int)
+            cnt = numpy.zeros(nspace); cnt[g.choice(nspace, k, replace=False)] = 1
+            return {"Real": cnt * g.uniform(0.1, 1.0, nspace), "Integer": (cnt * g.integers(1, 6, nspace)).astype(int), "Binary": cnt.astype(int)}[sub]
+
+        # ---- its scores
+        lsite = defsite(cls, "latentfn")
+        for rep in range(2):
+            x = draw_x()
+            expl = exp_of(x)
+            wx = dict(w, x=x, expected=expl)
+            okc, lv = guarded(ctx, lsite, icls, coords, lambda: p.latentfn(x), wx)
+            if not okc:
+                return
+            okv = ctx.check("C18.repeat.latentfn", close(ctx, "repeat latentfn error", lv, expl, eps), msite,
+                            "latentfn of the returned problem == oracle on the inputs of this call", icls, witness=dict(wx, got=lv), coords=coords)
+            if not okv:
+                return
+            if kind == "OPV" and rep == 0 and len(blocks) <= 5:
+                check_bound(ctx, msite, -numpy.asarray(lv, dtype=float), Gc, uc, blocks, x, ploidy, icls, coords, wx)
+        # ---- an earlier problem of the same object still answers for the inputs of its own call
+        live = [r_ for r_ in earlier if r_["live"]]
+        if live:
+            r_ = live[int(g.integers(0, len(live)))]
+            x = r_["draw"]()
+            expl = r_["exp_of"](x)
+            wx = {"kind": kind, "via": msite, "built_at_step": r_["step"], "rescored_after_step": step, "x": x, "expected": expl}
+            okc, lv = guarded(ctx, lsite, "earlier problem re-scored", coords, lambda: r_["p"].latentfn(x), wx)
+            if not okc or not ctx.check("C18.repeat.earlier", close(ctx, "repeat latentfn error", lv, expl, r_["eps"]), msite,
+                                        "an earlier problem still scores the inputs of its own call after later calls", "later call: " + op + copied,
+                                        witness=dict(wx, got=lv), coords=coords):
+                return
+        earlier.append({"p": p, "pg": pg, "mod": mod, "step": step, "draw": draw_x, "exp_of": exp_of, "eps": eps, "live": True})
+
+
 FAMILIES = {"helpers": (case_helpers, 20000, 400000), "problems": (case_problems, 10000, 160000),
-            "lifecycle": (case_lifecycle, 6000, 100000)}
+            "lifecycle": (case_lifecycle, 6000, 100000), "protocols": (case_protocols, 3000, 50000)}
 
 
 def run_shard(ctx):
